@@ -15,7 +15,7 @@ Task: make ONE small change to the library source under {wt}/healsparse/ (a few 
  1. the library still imports, and the ENTIRE existing test suite still passes: `cd {wt} && /venv/bin/python -m pytest -q -p no:cacheprovider -n 8` must report the same number of passed tests as before your change (run it before and after; it takes about 1-3 minutes);
  2. the property above is violated for SOME inputs, but NOT in a way that ordinary use would expose at once: the failure must need something specific to manifest — a particular sequence of operations, an unusual but legal input (specific alignment, dtype, sentinel, block order, boundary pixel, repeated pixels, empty set, coverage relationship…), a failure at a particular point, or the interplay of two sites;
  3. it is the kind of mistake a maintainer could plausibly make in a refactor or "optimisation" (no random garbage, no `if x == 12345` special-casing of a magic input, no deleting whole features).
-Then write a demonstration script {wt}/demo_{pid}{tag}.py: a small self-contained program using only the public API (and numpy) that exits 0 on the ORIGINAL code and exits 1 (printing what went wrong) on your modified code. Verify both: run it with your change applied (must exit 1), then `git -C {wt} stash` the library change (keep the demo file untracked), run it again (must exit 0), then `git -C {wt} stash pop`.
+Then write a demonstration script {wt}/demo_{pid}{tag}.py: a small self-contained program using only the public API (and numpy) that exits 0 on the ORIGINAL code and exits 1 (printing what went wrong) on your modified code. Verify both: run it with your change applied (must exit 1), then revert the library change with `git -C {wt} diff -- healsparse > /tmp/{pid}{tag}.patch && git -C {wt} apply -R /tmp/{pid}{tag}.patch` (do NOT use `git stash`: the stash is shared between worktrees and other agents are working concurrently), run it again (must exit 0), then re-apply with `git -C {wt} apply /tmp/{pid}{tag}.patch`.
 Finally produce the patch: `git -C {wt} diff -- healsparse > {wt}/patch_{pid}{tag}.diff` and leave the worktree with the change applied.
 
 Be creative about WHERE to put the defect: read the code paths relevant to the property first (healsparse/healSparseMap.py, healSparseCoverage.py, packedBoolArray.py, operations.py, io_map_fits.py, fits_shim.py, cat_healsparse_files.py, healSparseRandoms.py, geom.py, utils.py as relevant) and prefer a site the test suite exercises only on easy inputs. {sys.argv[3] if len(sys.argv) > 3 else ''}
